@@ -108,12 +108,16 @@ def make_trunc(spec: typing.Any, template: typing.Any, junk: int):
     return h
 
 
-def make_prefix(spec: typing.Any, template: typing.Any):
-    """Every prefix of a valid representation (choice over the cut) and every single-bit corruption of it."""
+def make_prefix(spec: typing.Any, template: typing.Any, header: bool = False, tail: str = ""):
+    """
+    Every prefix of a valid representation (choice over the cut) and every single-bit corruption of it; `tail` (hex)
+    is appended to the representation (bytes beyond the end that must never leak into the value).
+    """
     import pydsdl
 
     t0 = T.build(spec)
-    rep0 = pydsdl.serialize(t0, template)
+    kw = {"with_delimiter_header": True} if header else {}
+    rep0 = pydsdl.serialize(t0, template, **kw) + bytes.fromhex(tail)
 
     def h(cut: int, bit: int) -> typing.Any:
         c = pick(cut, 0, len(rep0))
@@ -130,11 +134,71 @@ def make_prefix(spec: typing.Any, template: typing.Any):
         if k >= 0:
             data[k // 8] ^= 1 << (k % 8)
         data = bytes(data[:c])
-        got = _real(t, data)
-        want = _oracle(spec, data, len(data))
+        got = _real(t, data, **kw)
+        want = _oracle(spec, data, len(data), header)
         if not _same(got, want):
             return "prefix %d / flipped bit %d: got %r want %r" % (c, k, got, want)
         return True
+
+    return h
+
+
+# byte / utf8 arrays inside delimited objects, followed by non-zero data (bytes beyond a payload must read as zero)
+BOUNDED = [
+    (["struct", [["delim", ["struct", [["varr", "byte", 4]]], 48], "u8", "u8"]], {"f0": {"f0": [65, 66]}, "f1": 0x43, "f2": 0x44}, False, ""),
+    (["struct", [["delim", ["struct", ["u8", ["varr", "utf8", 4]]], 56], "u16"]], {"f0": {"f0": 7, "f1": "xy"}, "f1": 0x4645}, False, ""),
+    (["delim", ["struct", [["varr", "byte", 3]]], 32], {"f0": [65]}, True, "4243444546"),
+    (["delim", ["struct", [["farr", "byte", 3], "u8"]], 64], {"f0": [65, 66, 67], "f1": 9}, True, "5152"),
+    (["struct", [["farr", ["delim", ["struct", [["varr", "u8", 3]]], 32], 2], "u8"]], {"f0": [{"f0": [1]}, {"f0": [2, 3]}], "f1": 0x77}, False, ""),
+]
+
+# twins: composites that compare EQUAL (same name, version and bit length set) but differ in structure
+TWINS = [
+    (["union", ["u8", "u16"]], ["union", ["u16", "u8"]]),
+    (["union", ["u8", "u16", "u16"]], ["union", ["u16", "u8"]]),
+    (["struct", ["u8", "u8"]], ["struct", ["u16"]]),
+    (["struct", [["union", ["u8", "bool"]], "u8"]], ["struct", [["union", ["bool", "u8"]], "u8"]]),
+    (["delim", ["struct", ["u8", "u16"]], 64], ["delim", ["struct", ["u16", "u8", "u8"]], 64]),
+]
+
+
+def make_twins(pair: int, first: int):
+    """
+    Both twins are used in ONE process, `first` first: each must decode by its own definition (state keyed by type
+    equality - which cannot tell the twins apart - would leak from one to the other).
+    """
+    import pydsdl
+
+    specs = TWINS[pair]
+
+    def concrete(k: int) -> typing.Any:
+        order = [first, 1 - first]
+        types = {}
+        for i in (0, 1):
+            T._counter[0] = 5000  # pylint: disable=protected-access  (identical generated names for both twins)
+            types[i] = T.build(specs[i])
+        if not (types[0] == types[1]):
+            return "harness: twins do not compare equal"
+        datas = [b"", b"\x00", b"\x01\x05", b"\x01\x05\x06\x07", b"\x02\x05\x06", b"\x00\xff\xee\xdd", b"\x04\x00\x00\x00\x09\x08\x07\x06"]
+        data = datas[k]
+        for i in order:
+            got = _real(types[i], data)
+            want = _oracle(specs[i], data, len(data))
+            if not _same(got, want):
+                return "twin %d (%s) decodes %r as %r, its own definition says %r" % (i, T.spec_str(specs[i]), data, got, want)
+            if got is not REJ:
+                back = _real(types[i], pydsdl.serialize(types[i], got[1]))
+                if not _same(back, got):
+                    return "twin %d: not a fixed point" % i
+        return True
+
+    def h(k: int) -> typing.Any:
+        a = pick(k, 0, 6)
+        if a is None:
+            return None
+        from .. import textio
+
+        return textio.native(concrete, a)
 
     return h
 
@@ -173,6 +237,17 @@ def conditions(tier: str, seed: int) -> typing.List[Cond]:
         out.append(Cond(PROP, "c07.prefix", make_prefix, {"spec": spec, "template": tv}, {"cut": int, "bit": int},
                         kind="choice", assumptions=["every prefix x every single-bit corruption (choice)"],
                         witness={"cut": 0, "bit": -1}, budget=300.0))
+    for spec, tv, header, tail in BOUNDED:
+        out.append(Cond(PROP, "c07.bounded", make_prefix, {"spec": spec, "template": tv, "header": header, "tail": tail},
+                        {"cut": int, "bit": int}, kind="choice",
+                        assumptions=["byte/utf8 arrays inside delimited objects followed by non-zero data: every prefix x "
+                                     "every single-bit corruption"],
+                        witness={"cut": 0, "bit": -1}, budget=300.0, need_exhaust=True))
+    for pi in range(len(TWINS)):
+        for first in (0, 1):
+            out.append(Cond(PROP, "c07.twins", make_twins, {"pair": pi, "first": first}, {"k": int}, kind="choice",
+                            assumptions=["two equal-comparing but structurally different composites decoded in one process, "
+                                         "7 inputs"], witness={"k": 2}, budget=120.0, need_exhaust=True))
     return out
 
 
